@@ -117,7 +117,7 @@ def gen_c18(tier, R):
     hays = ["", "a", "b", "ab", "ba", "aab", "abab", "aaa", "xaby", "a.b", "éa", "aéb", "a\nb", "+a+", "abcabc", "  ", "zzz"]
     reps = ["", "X", "-é-", "[", "ab", "$$", "<$0>", "$1", "${1}x", "a$", "$x",
             # every form of a group reference, and everything that merely looks like one
-            "$2$1", "${2}-${1}", "$10", "${10}", "$01", "${+1}", "${-1}", "$1a", "${1}a", "$", "$$$1", "$$1", "${", "${}", "${1", "$-", "é$1é", "$1$", "${name}", "$_", "$1_", "${ 1}", "$0$0",
+            "$2$1", "${2}-${1}", "$10", "${10}", "$01", "${+1}", "${-1}", "$1a", "${1}a", "$", "$$$1", "$$1", "${", "${}", "${1", "$-", "é$1é", "$1$", "${name}", "$_", "$1_", "${ 1}", "$0$0", "$0a", "${0}a", "$00", "${00}",
             "${99999999999999999999}", "$99999999999999999999", "{$1}", "$}{1", "$é"]
     fixed = [('c', 'a'), ('star', ('c', 'a')), ('plus', ('c', 'a')), ('opt', ('c', 'a')), ('e',), ('any',), ('star', ('any',)), ('seq', ('c', 'a'), ('c', 'b')),
              ('alt', ('c', 'a'), ('c', 'b')), ('alt', ('c', 'a'), ('seq', ('c', 'a'), ('c', 'b'))), ('alt', ('seq', ('c', 'a'), ('c', 'b')), ('c', 'a')),
